@@ -86,6 +86,9 @@ func runMuxStruct(c *mon.Ctx, prop string) {
 		if i%16 == 4 {
 			ops = autoCollisionScenario(r)
 		}
+		if i%16 == 10 {
+			ops = churnScenario(r)
+		}
 		if i%4 == 1 {
 			// PES headers at the edge of the write contract (forbidden or unsupported flag combinations, out-of-range values): whether
 			// the Muxer accepts or refuses such a unit, what reaches the output must be whole packets with gapless counters
